@@ -2,7 +2,7 @@ use crate::VueJsxTransformVisitor;
 use indexmap::{IndexMap, IndexSet};
 use std::borrow::Cow;
 use swc_core::{
-    common::{comments::Comments, EqIgnoreSpan, Span, Spanned, DUMMY_SP},
+    common::{comments::Comments, EqIgnoreSpan, Span, Spanned, SyntaxContext, DUMMY_SP},
     ecma::{
         ast::*,
         atoms::{atom, Atom},
@@ -16,6 +16,13 @@ enum RefinedTsTypeElement {
     GetterSignature(TsGetterSignature),
     MethodSignature(TsMethodSignature),
     CallSignature(TsCallSignatureDecl),
+}
+
+/// A type reference or indexed access type that is currently being resolved.
+#[derive(PartialEq)]
+pub(crate) enum ResolvingType {
+    Ref(Atom, SyntaxContext),
+    IndexedAccess(Span),
 }
 
 struct PropIr {
@@ -359,7 +366,46 @@ where
         }
     }
 
+    /// Runs `f` unless `ty` is a type reference or an indexed access type that is already
+    /// being resolved, in which case the circular reference is reported and `None` returned.
+    fn guard_circular<R>(&self, ty: &TsType, f: impl FnOnce() -> R) -> Option<R> {
+        let key = match ty {
+            TsType::TsTypeRef(TsTypeRef {
+                type_name: TsEntityName::Ident(ident),
+                ..
+            }) if {
+                let key = (ident.sym.clone(), ident.ctxt);
+                self.type_aliases.contains_key(&key) || self.interfaces.contains_key(&key)
+            } =>
+            {
+                ResolvingType::Ref(ident.sym.clone(), ident.ctxt)
+            }
+            TsType::TsIndexedAccessType(TsIndexedAccessType { span, .. }) if !span.is_dummy() => {
+                ResolvingType::IndexedAccess(*span)
+            }
+            _ => return Some(f()),
+        };
+        if self.resolving_types.borrow().contains(&key) {
+            HANDLER.with(|handler| {
+                handler.span_err(ty.span(), "Circular type reference can't be resolved.");
+            });
+            return None;
+        }
+        self.resolving_types.borrow_mut().push(key);
+        let ret = f();
+        self.resolving_types.borrow_mut().pop();
+        Some(ret)
+    }
+
     fn resolve_type_elements(&self, ty: &TsType, props: &mut Vec<RefinedTsTypeElement>) {
+        self.guard_circular(ty, || self.resolve_type_elements_unguarded(ty, props));
+    }
+
+    fn resolve_type_elements_unguarded(
+        &self,
+        ty: &TsType,
+        props: &mut Vec<RefinedTsTypeElement>,
+    ) {
         match ty {
             TsType::TsTypeLit(TsTypeLit { members, .. }) => {
                 props.extend(members.iter().filter_map(|member| match member {
@@ -588,6 +634,11 @@ where
     }
 
     fn resolve_string_or_union_strings(&self, ty: &TsType) -> Vec<Atom> {
+        self.guard_circular(ty, || self.resolve_string_or_union_strings_unguarded(ty))
+            .unwrap_or_default()
+    }
+
+    fn resolve_string_or_union_strings_unguarded(&self, ty: &TsType) -> Vec<Atom> {
         match ty {
             TsType::TsLitType(TsLitType {
                 lit: TsLit::Str(key),
@@ -639,6 +690,11 @@ where
     }
 
     fn resolve_indexed_access(&self, obj: &TsType, index: &TsType) -> Option<TsType> {
+        self.guard_circular(obj, || self.resolve_indexed_access_unguarded(obj, index))
+            .flatten()
+    }
+
+    fn resolve_indexed_access_unguarded(&self, obj: &TsType, index: &TsType) -> Option<TsType> {
         match obj {
             TsType::TsTypeRef(TsTypeRef {
                 type_name: TsEntityName::Ident(ident),
@@ -942,6 +998,11 @@ where
     }
 
     fn infer_runtime_type(&self, ty: &TsType) -> IndexSet<Option<Atom>> {
+        self.guard_circular(ty, || self.infer_runtime_type_unguarded(ty))
+            .unwrap_or_default()
+    }
+
+    fn infer_runtime_type_unguarded(&self, ty: &TsType) -> IndexSet<Option<Atom>> {
         let mut runtime_types = IndexSet::with_capacity(1);
         match ty {
             TsType::TsKeywordType(keyword) => match keyword.kind {
